@@ -306,6 +306,8 @@ func simC16(c *sim.Ctx) {
 			}
 		}
 		terminalReturned := false
+		lastTerminalEOF := false // the terminal result was the io.EOF of the last finite source
+		rereads := 0
 		// what ends the run when the script has not: through a concatenation an
 		// io.EOF would only end the current sub-source
 		var termEOF error = io.EOF
@@ -354,6 +356,24 @@ func simC16(c *sim.Ctx) {
 				break
 			}
 			if !channel && terminalReturned && consumer.AtGate() {
+				if nsub > 0 && lastTerminalEOF && rereads < 2 {
+					// every finite source has reported io.EOF: the concatenation is at
+					// its end and says so again however often it is asked, without
+					// going back to a source
+					rereads++
+					c.Probe("concatenation_read_again_after_its_end")
+					before := st.reads
+					b.Step(consumer, func() {
+						p, err := ps.NextPacket()
+						if err == nil || !errors.Is(err, io.EOF) || p != nil {
+							consumer.Fail("concat", "no-end-of-input-after-the-end", "ConcatFinitePacketDataSources", "read again after all its sources had reported io.EOF, the concatenation returned packet %v, error %v (want io.EOF)", p != nil, err)
+						}
+					})
+					if st.reads != before {
+						c.Fail("concat", "wrong-source-read", "ConcatFinitePacketDataSources", "a finite source was read again after the concatenation had reached its end")
+					}
+					continue
+				}
 				break
 			}
 			if again >= 0 && steps >= again && consumer.AtGate() {
@@ -441,6 +461,7 @@ func simC16(c *sim.Ctx) {
 				}
 				if it.kind == 3 {
 					terminalReturned = true
+					lastTerminalEOF = nsub > 0 && it.surface == io.EOF && errors.Is(it.err, io.EOF)
 				}
 				if it.kind != 0 && it.kind != 4 && !channel {
 					if it.surface != nil {
